@@ -319,3 +319,67 @@ func cmdTEval(args []string) error {
 }
 
 func init() { commands["teval"] = cmdTEval }
+
+// cmdTText: vh ttext --in tcases.ndjson --out crashcases.ndjson [--perms N]
+// renders temporal cases as source texts for the front-end check: every order of the stated facts when there are
+// at most four, otherwise the given order, its reverse and N pseudo-random orders.
+func cmdTText(args []string) error {
+	f := parseFlags(args)
+	perms := f.int("perms", 10)
+	return parallelMapMulti(f.str("in", "-"), f.str("out", "-"), 1, func(line []byte) ([]any, error) {
+		var c TCase
+		if err := jsonDecode(line, &c); err != nil {
+			return nil, err
+		}
+		n := len(c.TFacts)
+		ro := make([]int, len(c.Rules))
+		for i := range ro {
+			ro[i] = i
+		}
+		var orders [][]int
+		if n <= 4 {
+			var rec func(cur []int, used []bool)
+			rec = func(cur []int, used []bool) {
+				if len(cur) == n {
+					orders = append(orders, append([]int(nil), cur...))
+					return
+				}
+				for i := 0; i < n; i++ {
+					if !used[i] {
+						used[i] = true
+						rec(append(cur, i), used)
+						used[i] = false
+					}
+				}
+			}
+			rec(nil, make([]bool, n))
+		} else {
+			id, rev := make([]int, n), make([]int, n)
+			for i := range id {
+				id[i], rev[i] = i, n-1-i
+			}
+			orders = append(orders, id, rev)
+			h := int64(c.Now)
+			for _, b := range line {
+				h = h*131 + int64(b)
+			}
+			prnd := rand.New(rand.NewSource(h))
+			for k := 0; k < perms; k++ {
+				orders = append(orders, prnd.Perm(n))
+			}
+		}
+		seen := map[string]bool{}
+		var out []any
+		for k, o := range orders {
+			t := tprogramText(c, ro, o)
+			if seen[t] {
+				continue
+			}
+			seen[t] = true
+			out = append(out, CrashCase{ID: fmt.Sprintf("%v/%d", c.ID, k), Kind: "text", Text: t})
+		}
+		return out, nil
+	})
+}
+
+func init() { commands["ttext"] = cmdTText }
